@@ -45,7 +45,9 @@ def generate(ctx):
                "dtype": rng.choice(["float64", "float64", "float32"]), "p": rng.choice([0.2, 0.5, 0.8]),
                "seed": rng.randrange(1 << 30), "events": events,
                # reach the step time through the dt setter after construction (retimed connection) instead of the constructor
-               "retimed_from": rng.choice([None, None, 1.0, 0.5, 2.0])}
+               "retimed_from": rng.choice([None, None, 1.0, 0.5, 2.0]),
+               # reach the maximum delay through the synapse's delay setter (built with a smaller / larger one)
+               "redelayed_from": rng.choice([None, None, 0, 1, 2 * K])}
 
 
 def _synctor(desc):
@@ -80,10 +82,17 @@ def _build(desc, delayed):
 def _build_retimed(desc, delayed):
     """same configuration reached by assigning dt after construction"""
     dt0 = desc.get("retimed_from")
+    K0 = desc.get("redelayed_from")
+    d0 = dict(desc)
+    if delayed and K0 is not None and K0 != desc["K"]:
+        d0["K"] = K0
     if not dt0 or dt0 == desc["dt"]:
-        return _build(desc, delayed)
-    m = _build({**desc, "dt": dt0, "K": desc["K"] * desc["dt"] / dt0}, delayed)
-    m.dt = desc["dt"]
+        m = _build(d0, delayed)
+    else:
+        m = _build({**d0, "dt": dt0, "K": d0["K"] * desc["dt"] / dt0}, delayed)
+        m.dt = desc["dt"]
+    if d0["K"] != desc["K"]:
+        m.synapse.delay = desc["K"] * desc["dt"]
     return m
 
 
@@ -170,6 +179,8 @@ def run_case(ctx, desc):
         D, U = _build_retimed(desc, True), _build_retimed(desc, False)
         if desc.get("retimed_from") and desc["retimed_from"] != desc["dt"]:
             ctx.count("retimed_connections")
+        if desc.get("redelayed_from") is not None and desc["redelayed_from"] != desc["K"]:
+            ctx.count("redelayed_connections")
     except Exception as e:  # noqa: BLE001
         return ctx.violation(ctx.exc_signature(e, f"construct.{conn}.{syn}"), f"{type(e).__name__}: {str(e)[:140]}", desc)
     W = torch.randn(D.weight.shape, generator=tg, dtype=torch.float64).to(tdt)
